@@ -220,3 +220,54 @@ def mcMinimize (chi2Fn : Config α → α) (moveFn : MoveFn α) (simType : List 
   | .ok r => .ok (r.final.held, r.rest)
 
 end
+
+/-! ### the public wrapper `minimize_molecules` and `check_backend_installed`
+
+  ```
+  def check_backend_installed(warn_missing=False):
+      try:
+          from cython_backend._backend import py_minimize_molecules
+          return True
+      except ImportError:
+          if warn_missing: warnings.warn(text)
+          return False
+
+  def minimize_molecules(mol1_positions, mol2_positions, mol2_com, sigma_scale, n_steps, restriction,
+                         mol2_bonds_info, displacement_module, sim_type):
+      if check_backend_installed(warn_missing=True):
+          from cython_backend._backend import py_minimize_molecules
+          positions = py_minimize_molecules(...)
+          return np.array(positions)
+      mol2_positions = _minimize_molecules(...same arguments...)
+      return mol2_positions
+  ```
+  Whether the compiled backend can be imported is a fact about the installation (`installed`); what it
+  computes is outside the model (parameter `compiled`). -/
+
+/-- `check_backend_installed(warn_missing)`: the returned flag and the number of warnings emitted -/
+def checkBackendInstalled (installed warnMissing : Bool) : Bool × Nat :=
+  if installed then (true, 0)
+  else (false, if warnMissing then 1 else 0)
+
+/-- what a call of the public wrapper does -/
+structure WrapOut (α : Type) where
+  /-- number of `warnings.warn` calls -/
+  warnings : Nat
+  /-- the compiled backend computed the result -/
+  viaCompiled : Bool
+  /-- returned configuration and unread tape, or the exception -/
+  result : Except MCErr (Config α × Tape α)
+
+section
+variable {α : Type} [Scalar α]
+
+/-- `minimize_molecules(...)` -/
+def minimizeMolecules (installed : Bool)
+    (compiled : Config α → Tape α → Except MCErr (Config α × Tape α))
+    (chi2Fn : Config α → α) (moveFn : MoveFn α) (simType : List Int) (nSteps : Nat)
+    (held0 : Config α) (tape : Tape α) : WrapOut α :=
+  let (ok, w) := checkBackendInstalled installed true
+  if ok then ⟨w, true, compiled held0 tape⟩
+  else ⟨w, false, mcMinimize chi2Fn moveFn simType nSteps held0 tape⟩
+
+end
